@@ -299,4 +299,79 @@ pub fn run(ctx: &mut Ctx) {
             ctx.sample(|| json!({"prefix": prefix, "digits": digits.concat(), "strings": n}));
         }
     }
+    // ---- Space E: long inputs (an id text is usually 10 bytes - a cap, a fixed scratch buffer or an 8-bit digit
+    // counter shows only far beyond that), and more digit variety near the overflow border
+    ctx.space("strings/long-and-border-digit-runs", "zero-padded renderings of 1, 118, 4294967295 and 4294967296 at total lengths 43..=70000 behind HP:; 8/9/10-digit numbers d*10^k, d*10^k+-1, 429496729d, 42949672dd; for the canonical length 7: all pairs over the 17 bytes 0x2F..=0x3F at all position pairs, all triples over {/ : ?}");
+    {
+        let mut inputs: Vec<String> = vec![];
+        for total in [43usize, 63, 64, 65, 127, 128, 129, 255, 256, 257, 1000, 4096, 70_000] {
+            for tail in ["1", "118", "4294967295", "4294967296"] {
+                if total > 3 + tail.len() {
+                    inputs.push(format!("HP:{}{}", "0".repeat(total - 3 - tail.len()), tail));
+                }
+            }
+            inputs.push(format!("HP:{}x", "0".repeat(total - 4)));
+        }
+        for k in 7..=9u32 {
+            for d in 1..=9u64 {
+                let v = d * 10u64.pow(k);
+                for w in [v - 1, v, v + 1] {
+                    inputs.push(format!("HP:{w}"));
+                }
+            }
+        }
+        for d in 0..=9 {
+            inputs.push(format!("HP:429496729{d}"));
+            for e in 0..=9 {
+                inputs.push(format!("HP:42949672{d}{e}"));
+            }
+        }
+        let chunk = 64;
+        for part in inputs.chunks(chunk) {
+            if !ctx.take() {
+                continue;
+            }
+            ctx.state();
+            for s in part {
+                check_string(ctx, s);
+            }
+            ctx.nontrivials(part.len() as u64);
+            ctx.sample(|| json!({"first_input_bytes": part[0].len(), "inputs": part.len()}));
+        }
+        // canonical length 7: pairs over the 0x2F..=0x3F column, triples over {/ : ?}
+        let col: Vec<char> = (0x2Fu8..=0x3F).map(|b| b as char).collect();
+        for p1 in 0..7usize {
+            if !ctx.take() {
+                continue;
+            }
+            ctx.state();
+            let mut n = 0u64;
+            for p2 in p1 + 1..7 {
+                for &x in &col {
+                    for &y in &col {
+                        let mut t: Vec<char> = "0000118".chars().collect();
+                        t[p1] = x;
+                        t[p2] = y;
+                        check_string(ctx, &format!("HP:{}", t.iter().collect::<String>()));
+                        n += 1;
+                    }
+                }
+                for p3 in p2 + 1..7 {
+                    for &x in &['/', ':', '?'] {
+                        for &y in &['/', ':', '?'] {
+                            for &z in &['/', ':', '?'] {
+                                let mut t: Vec<char> = "0000118".chars().collect();
+                                t[p1] = x;
+                                t[p2] = y;
+                                t[p3] = z;
+                                check_string(ctx, &format!("HP:{}", t.iter().collect::<String>()));
+                                n += 1;
+                            }
+                        }
+                    }
+                }
+            }
+            ctx.nontrivials(n);
+        }
+    }
 }
